@@ -27,6 +27,7 @@ def run(model, rep, tier):
              'search directories and the loading of the files there is a de-duplication keyed by the path')
     from . import c14
     c14.r2_once(ctx, rep, R='C03.R9')
+    r10_positional_filters(ctx, rep)
     rep.units['cfg'] = ctx.cfg_stats
 
 
@@ -504,3 +505,134 @@ def arg_grammar(fi, lst):
                 out += seq(st.body, loopvar)
         return out
     return seq(fi.node.body)
+
+
+# ---------------------------------------------------------------------------------------------
+# R10 -- the positional filters of the command line reach the pattern lists
+
+POSITIONALS = (('legacy_module_filter', 'module'), ('legacy_test_filter', 'test'))
+
+
+def r10_positional_filters(ctx, rep, R='C03.R10'):
+    rep.rule(R, 'the positional filters reach the pattern lists ("no other test is executed"): in '
+             'get_options the positional module filter is added to options.module whenever it is given '
+             'and is not ".", and the positional test filter is added to options.test whenever it is '
+             'given -- decided by evaluating the branch conditions that dominate each adding site '
+             '(locals resolved through reaching definitions) over the finite domain '
+             'module filter in {absent, ".", other} x test filter in {absent, given} x '
+             '--module / --test given or not; a case in which a given filter is added nowhere runs '
+             'tests the command line excluded')
+    from sa.srcmodel import AnalysisError
+    from sa.variance import UNKNOWN, eval_guard
+    from .common import reaching_defs
+    fo = ctx.model.func('options.get_options')
+    mod = fo.module
+    dests = set()
+    for n in ast.walk(mod.tree):
+        if isinstance(n, ast.Call) and isinstance(n.func, ast.Attribute) and n.func.attr == 'add_argument' \
+                and n.args and isinstance(n.args[0], ast.Constant) and isinstance(n.args[0].value, str) \
+                and not n.args[0].value.startswith('-'):
+            dests.add(n.args[0].value)
+    for src_, _t in POSITIONALS:
+        if src_ not in dests:
+            raise AnalysisError('anchor vanished: positional argument %s of the option parser' % src_)
+    g = ctx.cfg(fo)
+
+    def resolve(e, nid, depth=0):
+        """normalised text of *e* with locals replaced by their (unique) reaching definition"""
+        if isinstance(e, ast.Name) and depth < 4:
+            ds = reaching_defs(g, nid, e.id)
+            if len(ds) == 1 and isinstance(ds[0], ast.expr):
+                return resolve(ds[0], nid, depth + 1)
+        return norm(e)
+
+    def contains_src(v, nid, want):
+        """the value expression puts the source into a new list: [X], L + [X], [*L, X]"""
+        if isinstance(v, ast.List):
+            return any(resolve(x, nid) == want for x in v.elts)
+        if isinstance(v, ast.BinOp) and isinstance(v.op, ast.Add):
+            return contains_src(v.left, nid, want) or contains_src(v.right, nid, want)
+        if isinstance(v, ast.IfExp):
+            return contains_src(v.body, nid, want) and contains_src(v.orelse, nid, want)
+        if isinstance(v, ast.BoolOp) and isinstance(v.op, ast.Or):
+            return False
+        return False
+    total = 0
+    for src_, tgt in POSITIONALS:
+        S, T = 'options.' + src_, 'options.' + tgt
+        sites = []
+        for nd in g.nodes:
+            if nd.kind != 'stmt':
+                continue
+            a = nd.ast
+            for c in ast.walk(a):
+                if isinstance(c, ast.Call) and isinstance(c.func, ast.Attribute) and \
+                        c.func.attr == 'append' and len(c.args) == 1 and \
+                        resolve(c.func.value, nd.id) == T and resolve(c.args[0], nd.id) == S:
+                    sites.append(nd)
+            if isinstance(a, ast.Assign) and any(norm(t) == T for t in a.targets) and \
+                    contains_src(a.value, nd.id, S):
+                sites.append(nd)
+            if isinstance(a, ast.AugAssign) and norm(a.target) == T and isinstance(a.op, ast.Add) and \
+                    contains_src(a.value, nd.id, S):
+                sites.append(nd)
+        if not sites:
+            rep.bad(R, '%s is added to %s' % (S, T), 'no statement of get_options adds the positional '
+                    '%s to %s: the filter given on the command line selects nothing' % (src_, T),
+                    key='no-site:' + src_, func=fo.qualname, where=ctx.where(fo, fo.node))
+            continue
+        total += len(sites)
+
+        def expand_at(nid):
+            class Sub(ast.NodeTransformer):
+                def visit_Name(self, n):
+                    if isinstance(n.ctx, ast.Load):
+                        ds = reaching_defs(g, nid, n.id)
+                        if len(ds) == 1 and isinstance(ds[0], ast.expr) and \
+                                not any(isinstance(x, ast.Call) for x in ast.walk(ds[0])):
+                            import copy
+                            return Sub().visit(copy.deepcopy(ds[0]))
+                    return n
+            import copy
+            return lambda e: ast.fix_missing_locations(Sub().visit(copy.deepcopy(e)))
+        guards = {nd.id: g.dominating_literals(nd.id, expand=expand_at(nd.id)) for nd in sites}
+        undecided = False
+        for lmf in (None, '.', 'M'):
+            for ltf in ((None,) if lmf is None else (None, 'T')):
+                for m0 in (None, ['m0']):
+                    for t0 in (None, ['t0']):
+                        env = {'options.legacy_module_filter': lmf, 'options.legacy_test_filter': ltf,
+                               'options.module': m0, 'options.test': t0}
+                        given = {'legacy_module_filter': lmf not in (None, '.'),
+                                 'legacy_test_filter': ltf is not None}[src_]
+                        ran = []
+                        for nd in sites:
+                            vals = []
+                            for e, pos in guards[nd.id]:
+                                v = eval_guard(e, env)
+                                vals.append(UNKNOWN if v is UNKNOWN else (bool(v) == pos))
+                            if any(v is False for v in vals):
+                                continue
+                            if any(v is UNKNOWN for v in vals):
+                                undecided = True
+                            ran.append(nd)
+                        case = 'module filter %r, test filter %r, --module %s, --test %s' % (
+                            lmf, ltf, 'given' if m0 else 'absent', 'given' if t0 else 'absent')
+                        if given and not ran:
+                            rep.bad(R, '%s reaches %s in every case' % (S, T),
+                                    'with %s no statement adds the positional %s to %s (adding sites: '
+                                    '%s): tests the command line excluded are run'
+                                    % (case, src_, T, '; '.join(
+                                        'L%s under %s' % (x.lineno, ' and '.join(
+                                            ('(%s)' if p_ else 'not (%s)') % norm(e_) for e_, p_ in guards[x.id]) or 'true')
+                                        for x in sites)),
+                                    key='dropped:%s' % src_, func=fo.qualname,
+                                    where=ctx.where(fo, sites[0].ast))
+                        elif not given and src_ == 'legacy_module_filter' and lmf == '.' and ran and \
+                                not undecided:
+                            pass        # adding "." selects everything: harmless
+        if undecided:
+            rep.assume('%s: some branch condition on the way to an adding site of %s is outside the '
+                       'finite domain; those cases are counted as "added"' % (R, src_))
+        rep.ok(R, '%s reaches %s whenever given (%d adding site(s), 20 cases)' % (S, T, len(sites)))
+    rep.floor(R, total, 2, 'statements adding a positional filter to a pattern list')
